@@ -1,9 +1,10 @@
 /-
 In-flight marker naming (transaction.py `_marker_path_for` / `_register_inflight`, `append_files`): which marker file protects
-which path.  A marker is named after the protected file's base name; a file that does not live directly in `data/` or
-`metadata/manifests/` (a pre-built file queued with `append_files`, e.g. `data/region=eu/part-0.parquet`) also carries a digest of
-its full table-relative path.  The digest function (SHA-256, first 16 hex digits) is a PARAMETER: the theorems state what they
-need from it as a hypothesis.
+which path.  A file the transaction writes itself (unique name directly in `data/` or `metadata/manifests/`) is marked by its base
+name; a PRE-BUILT file queued with `append_files` (and any file in a sub-directory, e.g. `data/region=eu/part-0.parquet`) also
+carries a digest of the transaction's salt and its full table-relative path, so every (transaction, file) pair has a marker of its
+own.  The digest function (SHA-256 of "<salt>:<path>", first 16 hex digits) is a PARAMETER — one per transaction; the theorems state
+what they need from it as a hypothesis.
 -/
 namespace DSV.Marker
 
@@ -22,10 +23,23 @@ def dataDir : Str := "data".toList
 def manifestsDir : Str := "metadata/manifests".toList
 
 /-- marker file name (without the `metadata/inflight/` directory and the `.inflight` suffix) -/
-def markerName (digest : Str → Str) (path : Str) : Str :=
+def markerNameOf (digest : Str → Str) (prebuilt : Bool) (path : Str) : Str :=
   let rel := lstripSlash path
   let (parent, name) := rpartition rel
-  if parent = dataDir ∨ parent = manifestsDir then name else digest rel ++ '-' :: name
+  if !prebuilt ∧ (parent = dataDir ∨ parent = manifestsDir) then name else digest rel ++ '-' :: name
+
+/-- a file the transaction writes itself -/
+def markerName (digest : Str → Str) (path : Str) : Str := markerNameOf digest false path
+
+/-- a pre-built file queued with `append_files` -/
+def markerNamePrebuilt (digest : Str → Str) (path : Str) : Str := markerNameOf digest true path
+
+/-- the scheme as repaired second (0f909e5): a digest of the path alone, and only for files in sub-directories — two live
+transactions queuing the SAME pre-built file share one marker -/
+def markerNamePathOnly (pathDigest : Str → Str) (path : Str) : Str :=
+  let rel := lstripSlash path
+  let (parent, name) := rpartition rel
+  if parent = dataDir ∨ parent = manifestsDir then name else pathDigest rel ++ '-' :: name
 
 /-- the scheme as first repaired (c834a8f): base name only -/
 def markerNameBasename (path : Str) : Str := (rpartition (lstripSlash path)).2
